@@ -215,3 +215,20 @@ class GitStore_config_c:
         # (nothing when there is none): what was saved is what every later access reads
         return (cp_data(result._configparser) == stored_cfg(self)
                 if is_instance(result, "xandikos.store.config.FileBasedCollectionMetadata") else True)
+
+
+@contract("xandikos.store.git.GitStore.config.<locals>.save_config",
+          params={"self": "obj:xandikos.store.git.GitStore", "cp": "obj:configparser.ConfigParser", "message": "str"},
+          modifies=["self.ghost_cfg"], may_raise=["LockedError"])
+class GitStore_save_config_c:
+    """C15, the persist step of the versioned metadata file: the callback GitStore.config hands
+    to FileBasedCollectionMetadata stores the parser's options as the collection's `.xandikos`
+    entry - the next `config` access (contract above: it holds stored_cfg) reads exactly them -
+    and changes no member.  With the setters' contracts (parser updated, callback called once
+    with that parser) this is the file form of "what is set is what is read back, also after a
+    restart"; the configparser write/read round trip is the ASSUMED link (false for values with
+    a line feed: the recorded finding)."""
+
+    def ensures(self, cp):
+        return (stored_cfg(self) == cp_data(cp) and cfg_ok(self)
+                and self.ghost_M == old(self.ghost_M))
